@@ -182,6 +182,12 @@ func Base(ep, vr, user, col string) (*Req, error) {
 		r.Body = search(qVamana("vector", Floats(1, 1, 1, 1)))
 	case "v1.insert:insert", "v1.insert:novec":
 		r.Body = Obj("points", Arr(Obj("id", Str(freshID(tag, 0)), "vector", Floats(7, 7, 7, 7), "metadata", Obj("name", Str("new"), "k", Arr(Int(1), Obj("z", Null()))))))
+	case "v1.insert:downgraded":
+		// within BASIC (the plan at creation), beyond TINY (the plan of this request): point size 100
+		r.Body = Obj("points", Arr(Obj("id", Str(freshID(tag, 0)), "vector", Floats(7, 7, 7, 7), "metadata", Obj("pad", Str(repeat("p", 150))))))
+	case "v1.insert:downquota":
+		// 2 points stored, TINY allows 3 per collection
+		r.Body = Obj("points", Arr(Obj("id", Str(freshID(tag, 0)), "vector", Floats(7, 7, 7, 7)), Obj("id", Str(freshID(tag, 1)), "vector", Floats(6, 6, 6, 6))))
 	case "v1.update:update", "v1.update:novec":
 		r.Body = Obj("points", Arr(Obj("id", Str(seedID(tag, 0)), "vector", Floats(8, 8, 8, 8), "metadata", Obj("name", Str("changed")))))
 	case "v1.search:search", "v1.search:novec":
